@@ -157,7 +157,10 @@ class _ExpressionConverter:
             ) = stack.pop()
 
             if isinstance(current_formula, NumericValue):
-                formula_value = Fraction(current_formula.value)
+                # the parser yields decimal literals as floats: go through the
+                # shortest decimal representation, so that 0.4 is 2/5 and not the
+                # binary fraction nearest to it
+                formula_value = Fraction(str(current_formula.value))
                 if formula_value.denominator == 1:
                     result_stack.append(em.Int(formula_value.numerator))
                 else:
